@@ -657,6 +657,56 @@ func runC13(c *core.Ctx) core.Meta {
 	}
 
 	// ---------------- R13.5 the entry offset is relative to the bytes handed out ----------------
+	// ---------------- R13.6 lookups use the resolved kernel name ----------------
+	st6 := c.Rule("R13.6", "LoadKernelCodeObject accepts an empty kernel name and then takes the only kernel of the file: in the loader, once the name parameter is merged with the auto-detected name (a phi of the parameter and the detected symbol name), every call that receives a kernel name receives the merged value, never the raw parameter: a descriptor or register-count symbol looked up under the empty name is not found, and a V5 kernel loaded without a name comes back with all-zero metadata (or is taken for a V2/V3 object)", 1)
+	for _, fn := range c.SrcFuncs(instsPkg) {
+		for _, prm := range fn.Params {
+			if bt, ok := prm.Type().Underlying().(*types.Basic); !ok || bt.Kind() != types.String {
+				continue
+			}
+			refs := prm.Referrers()
+			if refs == nil {
+				continue
+			}
+			merged := false
+			for _, r := range *refs {
+				if phi, ok := r.(*ssa.Phi); ok {
+					for _, e := range phi.Edges {
+						if e != ssa.Value(prm) {
+							if _, isConst := e.(*ssa.Const); !isConst {
+								merged = true
+							}
+						}
+					}
+				}
+			}
+			if !merged {
+				continue
+			}
+			st6.Instances++
+			c.MarkAnalysed(fn)
+			var bad ssa.Instruction
+			for _, r := range *refs {
+				call, ok := r.(*ssa.Call)
+				if !ok {
+					continue
+				}
+				cal := call.Call.StaticCallee()
+				if cal == nil || cal.Pkg != fn.Pkg {
+					continue // string helpers of the library (comparisons, formatting) do not look anything up
+				}
+				if bad == nil || r.Pos() < bad.Pos() {
+					bad = r
+				}
+			}
+			st6.Ob(bad == nil)
+			st6.Sample("%s: parameter %s is merged with a detected name; raw uses in lookups: %v", core.FuncName(fn), core.PinnedName(fn, prm.Name()), bad != nil)
+			if bad != nil {
+				c.ReportAt("R13.6", fn, bad.Pos(), "lookup-with-unresolved-name:"+core.FuncName(fn), core.FuncName(fn)+" passes its name parameter to "+core.InstrString(bad)+" although the name is only resolved later (empty name = the file's only kernel): for an empty name the lookup fails and the kernel's metadata stays zero")
+			}
+		}
+	}
+
 	st5 := c.Rule("R13.5", "consumers start a wavefront at (device address of Data) + KernelCodeEntryByteOffset; both parsers take the offset from the file (V2/V3: relative to the 256-byte header, which is stripped from Data; V5: relative to the descriptor's own address in .rodata), so every function that builds a code object from parsed metadata and sets Data to the kernel's instructions also stores KernelCodeEntryByteOffset = 0 on that path (must-pass between the parser call and the return of the object)", 2)
 	for _, fname := range []string{"newKernelCodeObjectFromEntireTextSection", "loadKernelCodeObjectFromELF"} {
 		fn := c.MustFunc("R13.5", instsPkg, fname)
